@@ -359,4 +359,24 @@ theorem joinComma_pad (L : List Txt) (hne : L ≠ []) : ∀ m : Nat,
     rw [List.replicate_succ', ← List.append_assoc, joinComma_snoc _ _ (by simp [hne]), ih]
     simp [List.replicate_succ']
 
+/-! ### lines -/
+
+theorem splitLines_joinLines : ∀ ls : List Txt, (∀ l ∈ ls, ∀ b ∈ l, b ≠ 10) → splitLines (joinLines ls) = ls
+  | [], _ => rfl
+  | l :: ls, h => by
+    have ih := splitLines_joinLines ls (fun x hx => h x (List.mem_cons_of_mem _ hx))
+    have key : ∀ (l : Txt), (∀ b ∈ l, b ≠ 10) → splitLines (l ++ 10 :: joinLines ls) = l :: ls := by
+      intro l
+      induction l with
+      | nil =>
+        intro _
+        simp only [List.nil_append, splitLines, ih]
+        cases ls <;> simp
+      | cons c l ihl =>
+        intro hl
+        have hc : (c == 10) = false := by simpa using hl c (List.mem_cons_self ..)
+        have := ihl (fun b hb => hl b (List.mem_cons_of_mem _ hb))
+        simp only [List.cons_append, splitLines, this, hc, Bool.false_eq_true, ↓reduceIte]
+    simpa [joinLines] using key l (h l (List.mem_cons_self ..))
+
 end Fit.Csv
